@@ -284,6 +284,7 @@ class TemplateCompiler(Coder):
             'nbits_offset': state.nbits_offset,
             'scale_offset': state.scale_offset,
             'bsr_modifier': state.bsr_modifier,
+            'nbits_of_associated': list(state.nbits_of_associated),
         }
         state.add_statement(
             CoderMethodCall(get_func_name(), (descriptor,), state_properties=state_properties)
